@@ -3,7 +3,6 @@ from __future__ import annotations
 # Tools for describing customizations that apply to particular code objects.
 
 import functools
-import inspect
 import sys
 import types
 from typing import (
@@ -146,7 +145,11 @@ def get_code(thing: object, *nested_names: str) -> types.CodeType:
         assert calc_obj.calculate(3) == (3 * 5) + 2 == 17
     """
 
+    seen = set()
     while True:
+        if id(thing) in seen:
+            raise ValueError(f"wrapper loop when unwrapping {thing!r}")
+        seen.add(id(thing))
         if isinstance(thing, functools.partial):
             thing = thing.func
             continue
@@ -154,7 +157,12 @@ def get_code(thing: object, *nested_names: str) -> types.CodeType:
             thing = thing.__func__
             continue
         if hasattr(thing, "__wrapped__"):
-            thing = inspect.unwrap(cast(types.FunctionType, thing))
+            # Follow __wrapped__ one level at a time, rather than all the way
+            # with inspect.unwrap(), so that a partial or method object in
+            # the middle of the chain gets resolved to the function that it
+            # actually calls. (functools.update_wrapper() can be applied to
+            # a partial too, and then its __wrapped__ need not be that.)
+            thing = thing.__wrapped__  # type: ignore
             continue
         break
 
